@@ -6,6 +6,8 @@ def describe(group, case):
     if group == "val":
         return "validateAddress(%s, allowLocalhost=%s) = %s (cleaned %s) disagrees with the declarative address form" % (
             case.get("addr"), case.get("allow_localhost"), case.get("result"), case.get("clean"))
+    if group == "start":
+        return "%s loads [%s]: an address invalid under the configured policy, or more than Max" % (case.get("start"), case.get("loaded"))
     return "peer list sequence Max=%s allowLocalhost=%s [%s] breaks validity / bound / trusted-kept" % (
         case.get("max"), case.get("allow_localhost"), case.get("ops"))
 
@@ -20,6 +22,7 @@ SPEC = {
     "describe": describe,
     "groups": {
         "val": ("mism_val", "pf_val"),
+        "start": ("mism_start", "pf_start"),
         "ops": ("mism_ops", "pf_ops"),
     },
     "trusted_base": [
@@ -29,7 +32,7 @@ SPEC = {
         "valid_form_b (decidable form used on the implementation's outputs) is compared with the model on every generated string, not proved equivalent to valid_form",
     ],
     "assumptions": [
-        "peer list starts empty (loading peers.json / custom peer files, which validate with the same function, is not modelled)",
+        "the CustomPeersFile loader (parseLocalPeerList + addPeers, which ignores Max) and the remote peer list download are not modelled; cache files hold valid UTF-8 and no two member names that clean to the same address (map-order dependent)",
     ],
 }
 
